@@ -105,6 +105,38 @@ theorem heartbeat_enabled_iff (c s t : Triple) (hc : InRange c) (hs : InRange s)
   simp only [heartbeatsEnabled, decide_eq_true_eq]
   omega
 
+/-- The announced values never exceed what EITHER side asked for (a side that said 0 asked for no
+    limit), and symmetric in the two sides: swapping client options and server Tune gives the
+    same TuneOk. -/
+theorem tune_within_both_sides (c s t : Triple) (hc : InRange c) (hs : InRange s)
+    (h : makeTuneOk c s = .ok t) :
+    (s.channelMax ≠ 0 → t.channelMax ≤ s.channelMax) ∧ (c.channelMax ≠ 0 → t.channelMax ≤ c.channelMax) ∧
+    (s.frameMax ≠ 0 → t.frameMax ≤ s.frameMax) ∧ (c.frameMax ≠ 0 → t.frameMax ≤ c.frameMax) ∧
+    t.heartbeat ≤ s.heartbeat ∧ t.heartbeat ≤ c.heartbeat ∧
+    makeTuneOk s c = .ok t := by
+  obtain ⟨h1, h2, h3, _⟩ := tune_fields c s t hc hs h
+  have hsym : makeTuneOk s c = makeTuneOk c s := by
+    simp only [makeTuneOk, Nat.min_comm]
+  have hl : ∀ top a b : Nat, (b ≠ 0 → negotiateLimit top a b ≤ b) ∧
+      (a ≠ 0 → negotiateLimit top a b ≤ a) := by
+    intro top a b
+    unfold negotiateLimit
+    constructor <;> intro hz <;> (repeat' split) <;> omega
+  refine ⟨?_, ?_, ?_, ?_, ?_, ?_, hsym ▸ h⟩
+  · rw [h1]; exact (hl _ _ _).1
+  · rw [h1]; exact (hl _ _ _).2
+  · rw [h2]; exact (hl _ _ _).1
+  · rw [h2]; exact (hl _ _ _).2
+  · rw [h3]; exact Nat.min_le_right _ _
+  · rw [h3]; exact Nat.min_le_left _ _
+
+/-- Obeyed (channel_max), count: with the allocator configured by the announced channel_max, at no
+    point of any history are more than that many channels open. -/
+theorem open_channels_le_channel_max (c s t : Triple) (hc : InRange c) (hs : InRange s)
+    (h : makeTuneOk c s = .ok t) (ops : List Slots.Op) :
+    (ops.foldl Slots.step (Slots.new t.channelMax)).open_.length ≤ t.channelMax ∧ t.channelMax ≤ U16_MAX :=
+  ⟨(C10.open_count_le_max t.channelMax ops).2.2, (tune_fields c s t hc hs h).2.2.2.2.2.1.1⟩
+
 example : makeTuneOk ⟨0, 0, 60⟩ ⟨2047, 131072, 60⟩ = .ok ⟨2047, 131072, 60⟩ := by decide
 example : makeTuneOk ⟨0, 0, 0⟩ ⟨0, 0, 0⟩ = .ok ⟨65535, 4294967295, 0⟩ := by decide
 example : makeTuneOk ⟨5, 4095, 1⟩ ⟨0, 0, 9⟩ = .frameMaxTooSmall 4096 4095 := by decide
